@@ -40,7 +40,9 @@ def get_inherited(t: Type) -> Type:
 
     g_args = get_args(t)
     if len(g_args) > 0:
-        mapping = {a.__name__: v for a, v in zip(r.__parameters__, g_args)}
+        # The arguments of `t` bind the type variables of `t`'s own class, in its order
+        own_parameters = getattr(get_origin(t), "__parameters__", None) or r.__parameters__
+        mapping = {a.__name__: v for a, v in zip(own_parameters, g_args)}
 
         r_base = get_origin(r)
         assert r_base is not None, "Internal error"
